@@ -283,3 +283,15 @@ package trace
 //@   ensures  a-recorded-id-is-reported-as-dropped: !result
 //@   loop 0 invariant slotIdx < uint64(len(dropped.slots)) && mask == uint64(len(dropped.slots)) - 1 && traceHash == hashOfBytes(data[1:]) && sameobj(traceID, data) && off(traceID) == off(data) + 1 && len(traceID) == len(data) - 1
 //@   loop 0 invariant not-past-the-slot: probeDist(slotIdx, traceHash, mask) <= probeDist(probeSlot, traceHash, mask)
+//
+//@ section C13
+//
+// searchPBM (trace ids): jumping to trace id tid may drop only the primary blocks that lie wholly before tid - a trace may
+// continue from the end of one primary block into the next, and a query by trace id must see all of its blocks.
+//@ func searchPBM
+//@   mode int
+//@   requires len(pbmIndex) > 0 && tid >= pbmIndex[0].traceID
+//@   requires ordered: forall a, b :: 0 <= a && a < b && b < len(pbmIndex) ==> pbmIndex[a].traceID <= pbmIndex[b].traceID
+//@   allow panic when false
+//@   ensures  suffix: sameobj(result, pbmIndex) && off(result) >= off(pbmIndex) && off(result) + len(result) == off(pbmIndex) + len(pbmIndex) && len(result) > 0
+//@   ensures  drops-only-blocks-wholly-before-tid: forall j :: 0 <= j && j < off(result) - off(pbmIndex) ==> j + 1 < len(pbmIndex) && pbmIndex[j+1].traceID < tid
